@@ -927,9 +927,18 @@ def r1_9(ctx, rep):
             if x is not None:
                 guard = (i, x)
     ok = guard is not None
+    if not ok:
+        # no `len(<positions>) > 1` test: the tildes may be counted another way; the symbolic model below decides
+        try:
+            two = [_intercept_model(scan, None, 2, flag) for flag in (True, False)]
+            one = [_intercept_model(scan, None, kk, flag) for kk in (0, 1) for flag in (True, False)]
+            ok = all(x[0] == "raise" for x in two) and all(x[0] == "list" for x in one)
+        except AnalysisError as e:
+            rep.defer(f"R1.9: {e}")
+            ok = True
     obl(rep, scan, guard[0] if guard else scan.node, "R1.9", ok,
-        "a raising guard on `more than one ~` exists in Scanner.scan", guard[1] if guard else "",
-        "no guard of the form `if len(<tilde positions>) > 1: raise` found: a second `~` is accepted "
+        "a raising guard on `more than one ~` exists in Scanner.scan", guard[1] if guard else "decided on the symbolic token-list model",
+        "no guard of the form `if <number of ~> > 1: raise` found: a second `~` is accepted "
         "(the grammar admits `~` inside parentheses and call arguments)")
     if guard:
         gi, xname = guard
@@ -1013,6 +1022,34 @@ def _show_tokens(v):
     return "[" + ", ".join(out) + "]"
 
 
+class _LoopBreak(Exception):
+    pass
+
+
+def _tilde_observer(loop):
+    """`for i in range(len(self.tokens)): if is_tilde(self.tokens[i]): BODY` (or over enumerate(self.tokens) / self.tokens,
+    or testing `.kind == 'TILDE'`): (name of the position variable or None, BODY) - a loop that looks at EVERY token of the
+    complete list and acts on the `~` tokens only; None if the loop is anything else"""
+    it = unparse(loop.iter)
+    ivar = tokexpr = None
+    if it == "range(len(self.tokens))" and isinstance(loop.target, ast.Name):
+        ivar, tokexpr = loop.target.id, f"self.tokens[{loop.target.id}]"
+    elif it == "enumerate(self.tokens)" and isinstance(loop.target, ast.Tuple) and len(loop.target.elts) == 2 and all(isinstance(e, ast.Name) for e in loop.target.elts):
+        ivar, tokexpr = loop.target.elts[0].id, loop.target.elts[1].id
+    elif it == "self.tokens" and isinstance(loop.target, ast.Name):
+        ivar, tokexpr = None, loop.target.id
+    else:
+        return None
+    if loop.orelse or len(loop.body) != 1 or not isinstance(loop.body[0], ast.If) or loop.body[0].orelse:
+        return None
+    test = unparse(loop.body[0].test)
+    alt = f"self.tokens[{ivar}]" if ivar else None
+    for tk in (tokexpr, alt):
+        if tk and (test == f"is_tilde({tk})" or (test.startswith(f"{tk}.kind == '") and "TILDE" in test)):
+            return ivar, loop.body[0].body
+    return None
+
+
 def _intercept_model(scan, xname, k, add_intercept):
     """Evaluate the statements of Scanner.scan that follow `self.tokens.append(Token('EOF', ...))` on a symbolic token list.
     The list is a sequence of pieces: ('T', lo, hi) = a slice of the scanned list T (indices are linear in t = position of
@@ -1033,7 +1070,9 @@ def _intercept_model(scan, xname, k, add_intercept):
     N, t = SX.atom("N"), SX.atom("t")
     state = {"tokens": [("T", SX.Lin(0), N)]}
     env = {}
-    xnames = {xname}  # the tilde-position list and its aliases (a helper's parameter, a renamed copy)
+    xnames = {xname} if xname else set()  # the tilde-position list and its aliases (a helper's parameter, a renamed copy)
+    NONE = ("none",)
+    positions = [t, SX.atom("t2"), SX.atom("t3")][:k]   # the positions of the `~` tokens, in order
 
     def lin(v):
         return v if isinstance(v, SX.Lin) else None
@@ -1047,6 +1086,15 @@ def _intercept_model(scan, xname, k, add_intercept):
             return SX.Lin(e.value)
         if isinstance(e, ast.Name) and e.id in env and isinstance(env[e.id], SX.Lin):
             return env[e.id]
+        if isinstance(e, ast.Subscript) and isinstance(e.value, ast.Name) and isinstance(env.get(e.value.id), tuple) and env[e.value.id][0] == "pos" \
+                and isinstance(e.slice, ast.Constant) and isinstance(e.slice.value, int):
+            seen = env[e.value.id][1]
+            if not seen or not (-len(seen) <= e.slice.value < len(seen)):
+                raise AnalysisError(f"`{unparse(e)}` is evaluated with {len(seen)} recorded tilde position(s)")
+            return seen[e.slice.value]
+        if isinstance(e, ast.Call) and dotted(e.func) == "len" and len(e.args) == 1 and isinstance(e.args[0], ast.Name) \
+                and isinstance(env.get(e.args[0].id), tuple) and env[e.args[0].id][0] == "pos":
+            return SX.Lin(len(env[e.args[0].id][1]))
         if isinstance(e, ast.Subscript) and isinstance(e.value, ast.Name) and e.value.id in xnames and isinstance(e.slice, ast.Constant) and e.slice.value in (0, -1):
             if k != 1:
                 raise AnalysisError(f"`{unparse(e)}` is evaluated with {k} tilde position(s)")
@@ -1064,6 +1112,12 @@ def _intercept_model(scan, xname, k, add_intercept):
             return add_intercept
         if isinstance(e, ast.Name) and e.id in xnames:
             return k > 0
+        if isinstance(e, ast.Name) and isinstance(env.get(e.id), tuple) and env[e.id][0] == "pos":
+            return len(env[e.id][1]) > 0
+        if isinstance(e, ast.Compare) and len(e.ops) == 1 and isinstance(e.ops[0], (ast.Is, ast.IsNot)) and isinstance(e.left, ast.Name) \
+                and e.left.id in env and isinstance(e.comparators[0], ast.Constant) and e.comparators[0].value is None:
+            is_none = env[e.left.id] == NONE
+            return is_none if isinstance(e.ops[0], ast.Is) else not is_none
         if isinstance(e, ast.UnaryOp) and isinstance(e.op, ast.Not):
             return not truth(e.operand)
         if isinstance(e, ast.BoolOp):
@@ -1171,9 +1225,58 @@ def _intercept_model(scan, xname, k, add_intercept):
             if isinstance(st, ast.If):
                 run(st.body if truth(st.test) else st.orelse)
                 continue
+            if isinstance(st, ast.For):
+                obs = _tilde_observer(st)
+                if obs is None:
+                    raise AnalysisError(f"Scanner.scan: unmodelled loop after the scanning loop `{short(st)}`")
+                ivar, taken = obs
+                try:
+                    for pos in positions:
+                        if ivar:
+                            env[ivar] = pos
+                        run(taken)
+                except _LoopBreak:
+                    pass
+                continue
+            if isinstance(st, ast.Break):
+                raise _LoopBreak()
+            if isinstance(st, ast.AugAssign) and isinstance(st.target, ast.Name) and isinstance(st.op, (ast.Add, ast.Sub)) and isinstance(env.get(st.target.id), SX.Lin):
+                d_ = num(st.value)
+                if d_ is None:
+                    raise AnalysisError(f"Scanner.scan: unmodelled increment `{unparse(st)}`")
+                env[st.target.id] = SX.add(env[st.target.id], d_, 1 if isinstance(st.op, ast.Add) else -1)
+                continue
+            if isinstance(st, ast.Expr) and isinstance(st.value, ast.Call) and isinstance(st.value.func, ast.Attribute) and st.value.func.attr == "append" \
+                    and isinstance(st.value.func.value, ast.Name) and isinstance(env.get(st.value.func.value.id), tuple) \
+                    and env[st.value.func.value.id][0] == "pos" and len(st.value.args) == 1:
+                v = num(st.value.args[0])
+                if v is None:
+                    raise AnalysisError(f"Scanner.scan: unmodelled recorded position `{unparse(st.value.args[0])}`")
+                env[st.value.func.value.id] = ("pos", env[st.value.func.value.id][1] + [v])
+                continue
             if isinstance(st, ast.Assign) and len(st.targets) == 1:
                 tg = st.targets[0]
                 if isinstance(tg, ast.Name):
+                    if isinstance(st.value, ast.Constant) and st.value.value is None:
+                        env[tg.id] = NONE
+                        continue
+                    if isinstance(st.value, ast.List) and not st.value.elts:
+                        env[tg.id] = ("pos", [])
+                        continue
+                    if isinstance(st.value, ast.Name) and isinstance(env.get(st.value.id), tuple) and env[st.value.id][0] == "pos":
+                        env[tg.id] = env[st.value.id]
+                        xnames.discard(tg.id)
+                        continue
+                    if isinstance(st.value, ast.ListComp) and len(st.value.generators) == 1:
+                        g_ = st.value.generators[0]
+                        fake = ast.For(target=g_.target, iter=g_.iter, body=[ast.If(test=c_, body=[], orelse=[]) for c_ in g_.ifs][:1] or [], orelse=[])
+                        if len(g_.ifs) == 1:
+                            fake.body = [ast.If(test=g_.ifs[0], body=[ast.Pass()], orelse=[])]
+                            obs = _tilde_observer(fake)
+                            if obs is not None and obs[0] and unparse(st.value.elt) == obs[0]:
+                                env[tg.id] = ("pos", list(positions))
+                                xnames.discard(tg.id)
+                                continue
                     if tg.id in xnames:
                         continue
                     if isinstance(st.value, ast.Name) and st.value.id in xnames:
